@@ -366,6 +366,10 @@ class TCPPacketGenerator(Device, OutMixIn):
             self.cwnd_avaialbe.put(True)
 
     def resend_packet(self, seqno: int):
+        if seqno not in self.sent_packets:
+            # nothing outstanding at this sequence number (already
+            # acknowledged, or not sent yet): nothing to retransmit
+            return
         resent_pkt = self.sent_packets[seqno]
         resent_pkt.time = self.env.now
         self.dprint(
